@@ -14,6 +14,8 @@ from ..schema import (
     Field,
     GraphQLCompositeType,
     GraphQLType,
+    ListType,
+    NonNullType,
     InputObjectType,
     InputValue,
     InterfaceType,
@@ -275,6 +277,13 @@ class TypeInfoVisitor(DispatchingVisitor):
         return t if isinstance(t, InputObjectType) else None
 
     @property
+    def parent_list_input_type(self) -> Optional[GraphQLType]:
+        """
+        Input type expected at the position of the list literal being entered.
+        """
+        return _peek(self._input_type_stack, 2)
+
+    @property
     def field(self) -> Optional[Field]:
         return _peek(self._field_stack)
 
@@ -396,8 +405,12 @@ class TypeInfoVisitor(DispatchingVisitor):
         self._leave_input_value()
 
     def enter_list_value(self, node):
-
-        item_type = unwrap_type(self.input_type) if self.input_type else None
+        # The expected type of the items is the list's item type: a list
+        # literal in a position that does not expect a list has no item type.
+        list_type = self.input_type
+        if isinstance(list_type, NonNullType):
+            list_type = list_type.type
+        item_type = list_type.type if isinstance(list_type, ListType) else None
 
         self._input_type_stack.append(
             item_type if item_type and is_input_type(item_type) else None
